@@ -15,4 +15,4 @@ def check(rep, tier):
     from contracts import core_backward
     rep.run(core_backward.run_proof, rep, tier, which=('backward_pass',))
     from contracts import rules_numeric
-    rep.run(rules_numeric.run, rep, tier, clauses=('N-frozen',))
+    rep.run(rules_numeric.run, rep, tier, clauses=('N-frozen', 'N-reuse'))
